@@ -1,6 +1,7 @@
 //! Checks that do not use the shared replication simulation (C12 component level, C13, C14, C17).
 
 use crate::check::{self, Replay};
+use crate::fam_c06::C06Enum;
 use crate::fam_c12::C12c;
 use crate::fam_c13::C13;
 use crate::fam_c14::{self, C14};
@@ -11,6 +12,7 @@ pub fn worker(family: &str, prop: &str, seed: u64, start: u64, stride: u64, tota
         "c17" => check::worker::<C17>(prop, seed, start, stride, total),
         "c13" => check::worker::<C13>(prop, seed, start, stride, total),
         "c12c" => check::worker::<C12c>(prop, seed, start, stride, total),
+        "c06enum" => check::worker::<C06Enum>(prop, seed, start, stride, total),
         "c14" => check::worker::<C14>(prop, seed, start, stride, total),
         _ => {
             eprintln!("harness error: unknown family {family}");
@@ -24,6 +26,7 @@ pub fn replay(r: &Replay) -> i32 {
         "c17" => check::replay::<C17>(r),
         "c13" => check::replay::<C13>(r),
         "c12c" => check::replay::<C12c>(r),
+        "c06enum" => check::replay::<C06Enum>(r),
         "c14" => check::replay::<C14>(r),
         _ => {
             eprintln!("harness error: unknown replay family {}", r.family);
@@ -35,6 +38,23 @@ pub fn replay(r: &Replay) -> i32 {
 pub fn check(prop: &str, tier: &str) -> i32 {
     match prop {
         "C17" => check::check::<C17>(prop, tier, "exploration", serde_json::Value::Null),
+        "C06" => {
+            let (c1, e1) = check::run_check::<C06Enum>(prop, tier, "fault_enumeration", serde_json::Value::Null);
+            if c1 == 2 {
+                return 2;
+            }
+            let (c2, e2) = check::run_check::<crate::repl_engine::Repl>(prop, tier, "fault_enumeration", serde_json::Value::Null);
+            if c2 == 2 {
+                return 2;
+            }
+            let mut e1 = e1.unwrap();
+            e1["coverage"]["exhaustive"] = true.into();
+            let mut ev = merge_evidence(e1, e2.unwrap(), "enumerated", "seeded_mutation", c1.max(c2));
+            // Only the enumerated sub-batch is exhaustive (for its stated space).
+            ev["coverage"].as_object_mut().unwrap().remove("exhaustive");
+            check::write_evidence(prop, &ev);
+            c1.max(c2)
+        }
         "C12" => {
             // Two sub-batches: end to end through the replication simulation, and component level.
             let (c1, e1) = check::run_check::<crate::repl_engine::Repl>(prop, tier, "exploration", serde_json::Value::Null);
@@ -45,22 +65,7 @@ pub fn check(prop: &str, tier: &str) -> i32 {
             if c2 == 2 {
                 return 2;
             }
-            let (mut e1, e2) = (e1.unwrap(), e2.unwrap());
-            let n = |v: &serde_json::Value, k: &str| v["coverage"][k].as_u64().unwrap_or(0);
-            let evals = n(&e1, "evaluations") + n(&e2, "evaluations");
-            let distinct = n(&e1, "distinct_nontrivial") + n(&e2, "distinct_nontrivial");
-            let wall = e1["wall_s"].as_f64().unwrap_or(0.0) + e2["wall_s"].as_f64().unwrap_or(0.0);
-            let mut samples = e1["coverage"]["samples"].as_array().cloned().unwrap_or_default();
-            samples.extend(e2["coverage"]["samples"].as_array().cloned().unwrap_or_default());
-            let rule = format!("two sub-batches. End to end: {} Component level: {}", e1["coverage"]["rule"].as_str().unwrap_or(""), e2["coverage"]["rule"].as_str().unwrap_or(""));
-            let sub = serde_json::json!({"end_to_end": e1["coverage"].clone(), "component_level": e2["coverage"].clone()});
-            e1["coverage"]["evaluations"] = evals.into();
-            e1["coverage"]["distinct_nontrivial"] = distinct.into();
-            e1["coverage"]["samples"] = samples.into();
-            e1["coverage"]["rule"] = rule.into();
-            e1["coverage"]["sub_batches"] = sub;
-            e1["wall_s"] = wall.into();
-            e1["violations"] = ((c1.max(c2) == 1) as u64).into();
+            let e1 = merge_evidence(e1.unwrap(), e2.unwrap(), "end_to_end", "component_level", c1.max(c2));
             check::write_evidence(prop, &e1);
             c1.max(c2)
         }
@@ -105,4 +110,27 @@ pub fn check(prop: &str, tier: &str) -> i32 {
             2
         }
     }
+}
+
+/// One evidence record out of two sub-batches: counts add up, samples and rules are concatenated, the
+/// per-sub-batch coverage is kept under `sub_batches`.
+fn merge_evidence(mut e1: serde_json::Value, e2: serde_json::Value, n1: &str, n2: &str, code: i32) -> serde_json::Value {
+    let n = |v: &serde_json::Value, k: &str| v["coverage"][k].as_u64().unwrap_or(0);
+    let evals = n(&e1, "evaluations") + n(&e2, "evaluations");
+    let distinct = n(&e1, "distinct_nontrivial") + n(&e2, "distinct_nontrivial");
+    let wall = e1["wall_s"].as_f64().unwrap_or(0.0) + e2["wall_s"].as_f64().unwrap_or(0.0);
+    let mut samples = e1["coverage"]["samples"].as_array().cloned().unwrap_or_default();
+    samples.extend(e2["coverage"]["samples"].as_array().cloned().unwrap_or_default());
+    let rule = format!("two sub-batches. {n1}: {} {n2}: {}", e1["coverage"]["rule"].as_str().unwrap_or(""), e2["coverage"]["rule"].as_str().unwrap_or(""));
+    let mut sub = serde_json::Map::new();
+    sub.insert(n1.to_string(), e1["coverage"].clone());
+    sub.insert(n2.to_string(), e2["coverage"].clone());
+    e1["coverage"]["evaluations"] = evals.into();
+    e1["coverage"]["distinct_nontrivial"] = distinct.into();
+    e1["coverage"]["samples"] = samples.into();
+    e1["coverage"]["rule"] = rule.into();
+    e1["coverage"]["sub_batches"] = serde_json::Value::Object(sub);
+    e1["wall_s"] = wall.into();
+    e1["violations"] = ((code == 1) as u64).into();
+    e1
 }
